@@ -75,6 +75,7 @@ fn install_panic_hook() {
             } else {
                 "<non-string panic>".into()
             };
+            eprintln!("[C16] panic at {}: {}", loc, msg);
             *LAST_PANIC.lock().unwrap_or_else(|e| e.into_inner()) = Some((strip_repo(&loc), msg));
         }));
     });
@@ -1257,4 +1258,1031 @@ async fn drain_to_eof(client: &mut TcpStream) -> (Vec<u8>, &'static str) {
             Err(_) => return (buf.to_vec(), "reset"),
         }
     }
+}
+
+#[derive(Clone, Copy, Debug, PartialEq)]
+enum Drive {
+    Silent,
+    Establish,
+    BadAs,
+}
+
+impl<'a> World<'a> {
+    /// one connection handed to accept_connection; `judged` = the admission clause applies
+    async fn op_connect(&mut self, addr: IpAddr, role: Role, drive: Drive, pre: Option<(TcpStream, TcpStream)>, judged: bool) {
+        for i in self.refresh() {
+            let a = self.conns[i].addr;
+            self.check_cleanup(a, i).await;
+        }
+        let adm = if judged { self.admission(&addr, role) } else { Adm::Unjudged("arrived-before-the-neighbour-was-replaced".into()) };
+        let pair = match pre {
+            Some(p) => Ok(p),
+            None => self.make_pair(addr, role).await,
+        };
+        let (mut client, server) = match pair {
+            Ok(p) => p,
+            Err(e) => {
+                self.abort(&format!("harness: cannot build a loopback connection: {}", e));
+                return;
+            }
+        };
+        let is_static = self.statics.contains_key(&addr);
+        let sib = self.live(&addr);
+        let res = accept_connection(&self.global, &self.tables, server, role).await;
+        self.rep.eval();
+        self.rep.count("connections");
+        self.rep.count(if role == Role::Active { "role:active" } else { "role:passive" });
+        self.rep.count(if addr.is_ipv6() { "addr:v6" } else { "addr:v4" });
+        let got = res.is_some();
+        self.log(format!(
+            "connect #{} from {} role={} -> {}",
+            self.conns.len(),
+            addr,
+            role_name(role),
+            if got { "session" } else { "refused" }
+        ));
+        let mut skip_setup = false;
+        match &adm {
+            Adm::Accept(why) => {
+                self.rep.count(&format!("admission:expect-accept:{}", why.split('/').next().unwrap_or("")));
+                if why.starts_with("dynamic-prefix") {
+                    self.rep.count(&format!("prefix-class:{}", &why["dynamic-prefix/".len()..]));
+                }
+                self.rep.nontrivial(self.case_hash());
+                if !got {
+                    let w = self.witness(vec![("address", Json::s(addr.to_string())), ("role", Json::s(role_name(role))), ("expected", Json::s(format!("accept: {}", why)))]);
+                    self.rep.violation(
+                        &format!("C16/admission/expected-accept/{}", why),
+                        "a connection the statement admits (configured, up, no connection in that direction / inside a dynamic-neighbour prefix) was refused",
+                        w,
+                    );
+                }
+            }
+            Adm::Refuse(why) => {
+                self.rep.count(&format!("admission:expect-refuse:{}", why));
+                if why != "not-configured" || !self.groups.iter().all(|g| g.prefixes.is_empty()) {
+                    self.rep.nontrivial(self.case_hash());
+                }
+                if got {
+                    skip_setup = true;
+                    let w = self.witness(vec![("address", Json::s(addr.to_string())), ("role", Json::s(role_name(role))), ("expected", Json::s(format!("refuse: {}", why)))]);
+                    self.rep.violation(
+                        &format!("C16/admission/expected-refuse/{}", why),
+                        "a connection the statement does not admit became a session",
+                        w,
+                    );
+                }
+            }
+            Adm::Unjudged(why) => self.rep.count(&format!("unjudged:admission:{}", why)),
+        }
+        match res {
+            None => {
+                // dropped before an OPEN is sent: zero bytes, then EOF
+                let (bytes, how) = drain_to_eof(&mut client).await;
+                self.rep.eval();
+                self.rep.count("refused:drained");
+                if how == "timeout" {
+                    self.abort("watchdog: a refused connection was not closed");
+                } else if !bytes.is_empty() {
+                    let ty = if bytes.len() >= 19 {
+                        match bytes[18] {
+                            1 => "open",
+                            3 => "notification",
+                            4 => "keepalive",
+                            _ => "other",
+                        }
+                    } else {
+                        "fragment"
+                    };
+                    let w = self.witness(vec![("address", Json::s(addr.to_string())), ("bytes", Json::s(hex(&bytes)))]);
+                    self.rep.violation(&format!("C16/refused-bytes/{}", ty), "a refused connection received bytes before it was closed", w);
+                } else {
+                    self.rep.count(&format!("refused:zero-bytes-then-{}", how));
+                }
+            }
+            Some(session) => {
+                for s in &sib {
+                    self.conns[*s].had_sibling = true;
+                }
+                self.after_accept(session, client, addr, role, drive, is_static, !sib.is_empty(), skip_setup).await;
+            }
+        }
+    }
+
+    #[allow(clippy::too_many_arguments)]
+    async fn after_accept(&mut self, session: PeerSession, client: TcpStream, addr: IpAddr, role: Role, drive: Drive, is_static: bool, had_sibling: bool, skip_setup: bool) {
+        #[allow(deprecated)]
+        let _ = client.set_linger(Some(Duration::ZERO));
+        // ---- what the session was set up with
+        let mut obs = Observed {
+            role: Some(session.export_ctx.role),
+            local_as_session: session.export_ctx.local_asn,
+            confed_id: session.export_ctx.confederation_id,
+            cluster: session.cluster_id,
+            limits: session.prefix_counters.iter().map(|(f, (max, _))| (fid(*f), *max)).collect(),
+            export: session
+                .state
+                .export_policy
+                .load_full()
+                .map(|a| (a.disposition == table::Disposition::Reject, a.policies.iter().map(|p| p.name.to_string()).collect())),
+            ..Default::default()
+        };
+        {
+            let g = self.global.read().await;
+            if let Some(p) = g.peers.get(&addr) {
+                obs.expected_as = p.config.expected_remote_asn;
+                let ctx = p.context.lock().unwrap();
+                let arb = ctx.conn_arbiter.lock().unwrap();
+                obs.send_max = arb.fsm().configured_send_max().iter().map(|(f, v)| (fid(*f), *v)).collect();
+            }
+        }
+        // ---- run it the way Global::serve does
+        let arb = session.conn_arbiter.clone();
+        let (done_tx, done_rx) = tokio::sync::oneshot::channel::<Option<(String, String)>>();
+        let g2 = self.global.clone();
+        let atx = self.active_tx.clone();
+        let jh = tokio::spawn(async move {
+            let r = std::panic::AssertUnwindSafe(session.run(g2, atx)).catch_unwind().await;
+            let _ = done_tx.send(if r.is_err() { Some(take_panic()) } else { None });
+        });
+        match role {
+            Role::Active => arb.lock().unwrap().active_join_handle = Some(jh),
+            Role::Passive => arb.lock().unwrap().passive_join_handle = Some(jh),
+        }
+        let id = self.conns.len();
+        self.conns.push(Conn {
+            id,
+            addr,
+            role,
+            client: Some(client),
+            rx: BytesMut::with_capacity(4096),
+            done_rx: Some(done_rx),
+            done: false,
+            arb,
+            dynamic: !is_static,
+            had_sibling,
+            peer_as: 0,
+            open_hold: 0,
+            open_mp: Vec::new(),
+            open_read: false,
+            driven: false,
+        });
+        if skip_setup {
+            // admission already violated; there is no configuration to compare with
+            return;
+        }
+        // ---- the OPEN it emits
+        match self.read_msg(id).await {
+            Rd::Msg(bgp::ParsedMessage::Open(open)) => {
+                fold_open(&mut obs, &open);
+                self.conns[id].open_read = true;
+                self.conns[id].open_hold = obs.open_hold;
+                self.conns[id].open_mp = obs.mp.iter().copied().collect();
+                self.rep.count("open:read");
+            }
+            Rd::Msg(_) => {
+                let w = self.witness(vec![("address", Json::s(addr.to_string()))]);
+                self.rep.violation("C16/setup/first-message-not-open", "an accepted session's first message is not an OPEN", w);
+            }
+            Rd::Timeout => {
+                self.abort("watchdog: an accepted session did not emit its OPEN");
+                return;
+            }
+            Rd::Eof | Rd::Reset => {
+                self.rep.count("unjudged:setup:session-closed-before-open");
+                self.await_done(id).await;
+                self.check_cleanup(addr, id).await;
+                return;
+            }
+            Rd::Bad(e) => {
+                let w = self.witness(vec![("address", Json::s(addr.to_string())), ("decode", Json::s(e))]);
+                self.rep.violation("C16/setup/open-undecodable", "the OPEN an accepted session emits does not decode", w);
+                return;
+            }
+        }
+        // ---- compare with the configuration
+        let cands: Vec<Expect> = if let Some(n) = self.statics.get(&addr) {
+            let g = n.group.as_ref().and_then(|name| self.groups.iter().find(|g| &g.name == name));
+            vec![expectation(&self.confed, Some(n), g, &addr)]
+        } else {
+            let mut seen = BTreeSet::new();
+            self.containing(&addr)
+                .into_iter()
+                .filter(|(gi, _)| seen.insert(*gi))
+                .map(|(gi, _)| expectation(&self.confed, None, Some(&self.groups[gi]), &addr))
+                .collect()
+        };
+        if cands.is_empty() {
+            self.rep.count("unjudged:setup:no-configuration-applies");
+            return;
+        }
+        self.rep.eval();
+        let best = cands.iter().min_by_key(|e| diff(e, &obs).len()).unwrap().clone();
+        let diffs = diff(&best, &obs);
+        self.rep.count(&format!("setup:judged:{}", best.kind));
+        self.rep.count(&format!("setup:role:{}", best.role.map(|r| format!("{:?}", r)).unwrap_or_else(|| "unjudged".into())));
+        if best.kind != "static" {
+            self.rep.nontrivial(self.case_hash() ^ 0x5e7);
+        }
+        if !best.addpath.is_empty() {
+            self.rep.count("setup:with-addpath");
+        }
+        if matches!(best.gr, Some(Some(_))) {
+            self.rep.count("setup:with-gr");
+        }
+        if best.llgr.as_ref().is_some_and(|l| !l.is_empty()) {
+            self.rep.count("setup:with-llgr");
+        }
+        if !best.limits.is_empty() {
+            self.rep.count("setup:with-prefix-limit");
+        }
+        if best.export.is_some() {
+            self.rep.count("setup:with-export-policy");
+        }
+        if best.hold != Some(180) {
+            self.rep.count("setup:with-hold-time");
+        }
+        if self.confed.is_some() {
+            self.rep.count("setup:in-confederation");
+        }
+        for (what, n) in [("role", best.role.is_none()), ("local-as", best.local_as.is_none()), ("hold-time", best.hold.is_none()), ("gr", best.gr.is_none()), ("llgr", best.llgr.is_none()), ("cluster-id", best.cluster.is_none())] {
+            if n {
+                self.rep.count(&format!("unjudged:setup:{}", what));
+            }
+        }
+        if cands.len() > 1 {
+            self.rep.count("overlap:several-groups-contain-the-address");
+            let maxlen = cands.iter().map(|c| c.longest_prefix).max().unwrap_or(0);
+            self.rep.count(if best.longest_prefix == maxlen { "overlap:group-of-longest-prefix" } else { "overlap:group-of-shorter-prefix" });
+        }
+        let tag = if best.kind == "dynamic" { self.loader_name() } else { self.src.get(&addr).copied().unwrap_or("?") };
+        for (field, detail) in &diffs {
+            let w = self.witness(vec![
+                ("address", Json::s(addr.to_string())),
+                ("role", Json::s(role_name(role))),
+                ("difference", Json::s(detail.clone())),
+                ("all_differences", Json::strs(diffs.iter().map(|d| d.1.clone()))),
+                ("expected", Json::s(format!("{:x?}", best))),
+                ("observed", Json::s(format!("{:x?}", obs))),
+            ]);
+            self.rep.violation(
+                &format!("C16/setup/{}/{}/{}", field, best.kind, tag),
+                &format!("session parameter differs from the neighbour's / peer group's configuration: {}", detail),
+                w,
+            );
+        }
+        if self.rep.want_sample() && best.kind != "static" && diffs.is_empty() {
+            let w = self.witness(vec![("address", Json::s(addr.to_string())), ("expected", Json::s(format!("{:x?}", best))), ("observed", Json::s(format!("{:x?}", obs)))]);
+            self.rep.sample(w);
+        }
+        self.conns[id].peer_as = best.peer_as;
+        // ---- drive the OPEN exchange from the client side
+        let drive = match drive {
+            Drive::Establish if obs.open_hold < 30 => Drive::Silent,
+            Drive::BadAs if best.peer_as == 0 => Drive::Silent,
+            d => d,
+        };
+        if drive != Drive::Silent {
+            self.drive(id, drive).await;
+        }
+    }
+
+    async fn drive(&mut self, id: usize, drive: Drive) {
+        let addr = self.conns[id].addr;
+        let role = self.conns[id].role;
+        let want_as = self.conns[id].peer_as;
+        let my_as = match drive {
+            Drive::BadAs => if want_as == 64999 { 64998 } else { 64999 },
+            _ => if want_as != 0 { want_as } else { 65077 },
+        };
+        let rid = match addr {
+            IpAddr::V4(a) => u32::from(Ipv4Addr::new(10, a.octets()[1], a.octets()[2], a.octets()[3])),
+            IpAddr::V6(_) => u32::from(Ipv4Addr::new(10, 0, 0, 6)),
+        };
+        let mut caps: Vec<packet::Capability> = self.conns[id].open_mp.iter().map(|f| packet::Capability::MultiProtocol(Family::new((*f >> 16) as u16, *f as u8))).collect();
+        caps.push(packet::Capability::FourOctetAsNumber(my_as));
+        let mut out = BytesMut::new();
+        let mut codec = bgp::PeerCodec::new();
+        let open = bgp::Message::Open(bgp::Open { as_number: my_as, holdtime: HoldTime::new(3600).unwrap(), router_id: rid, capability: caps });
+        if codec.encode_to(&open, &mut out).is_err() || codec.encode_to(&bgp::Message::Keepalive, &mut out).is_err() {
+            self.rep.count("harness:client-open-not-encodable");
+            return;
+        }
+        self.conns[id].driven = true;
+        self.log(format!("  #{} client sends OPEN as={} + KEEPALIVE ({:?})", id, my_as, drive));
+        {
+            use tokio::io::AsyncWriteExt as _;
+            let Some(c) = self.conns[id].client.as_mut() else { return };
+            if c.write_all(&out).await.is_err() {
+                self.rep.count("harness:client-write-failed");
+            }
+        }
+        self.rep.eval();
+        match self.read_msg(id).await {
+            Rd::Msg(bgp::ParsedMessage::Keepalive) => {
+                if drive == Drive::BadAs {
+                    let w = self.witness(vec![("address", Json::s(addr.to_string())), ("configured_as", Json::Int(want_as as i128)), ("sent_as", Json::Int(my_as as i128))]);
+                    self.rep.violation("C16/setup/expected-as/other-as-accepted", "an OPEN from an AS other than the configured one was acknowledged", w);
+                } else {
+                    self.rep.count("drive:open-acknowledged");
+                }
+                // Established (or gone) -- by state
+                let t0 = std::time::Instant::now();
+                loop {
+                    self.refresh();
+                    if self.conns[id].done {
+                        self.rep.count("drive:ended-after-open");
+                        break;
+                    }
+                    if self.conns[id].arb.lock().unwrap().state(role) == crate::fsm::State::Established {
+                        self.rep.count("drive:established");
+                        break;
+                    }
+                    if t0.elapsed() > WATCHDOG {
+                        self.abort("watchdog: session neither Established nor finished after OPEN + KEEPALIVE");
+                        return;
+                    }
+                    tokio::time::sleep(Duration::from_millis(1)).await;
+                }
+            }
+            Rd::Msg(bgp::ParsedMessage::Notification(n)) => {
+                let bad_as = matches!(n, packet::Notification::OpenBadPeerAs);
+                match drive {
+                    Drive::BadAs if bad_as => self.rep.count("drive:wrong-as-rejected"),
+                    Drive::Establish if bad_as => {
+                        let w = self.witness(vec![("address", Json::s(addr.to_string())), ("configured_as", Json::Int(want_as as i128))]);
+                        self.rep.violation("C16/setup/expected-as/configured-as-rejected", "an OPEN from the configured AS was rejected as a bad peer AS", w);
+                    }
+                    _ => self.rep.count("drive:other-notification"),
+                }
+                self.await_done(id).await;
+            }
+            Rd::Eof | Rd::Reset => {
+                self.rep.count("drive:closed-without-reply");
+                self.await_done(id).await;
+            }
+            Rd::Timeout => {
+                self.abort("watchdog: no reply to the client's OPEN");
+                return;
+            }
+            Rd::Msg(_) | Rd::Bad(_) => self.rep.count("drive:unexpected-reply"),
+        }
+        // a collision may have ended the other connection of this neighbour: settle by state
+        let sibs: Vec<usize> = self.live(&addr).into_iter().filter(|i| *i != id).collect();
+        if !self.conns[id].done && !sibs.is_empty() {
+            for s in sibs {
+                if self.conns[s].driven {
+                    // both went through an OPEN exchange: exactly one survives; this one did
+                    self.rep.count("drive:collision-other-ends");
+                    self.await_done(s).await;
+                    self.check_cleanup(addr, s).await;
+                }
+            }
+        }
+        if self.conns[id].done {
+            self.check_cleanup(addr, id).await;
+        }
+    }
+
+    /// a connection's task has finished: the dynamic-cleanup clause
+    async fn check_cleanup(&mut self, addr: IpAddr, ended: usize) {
+        for i in self.refresh() {
+            if i != ended {
+                let _ = i;
+            }
+        }
+        let live = !self.live(&addr).is_empty();
+        let present = self.global.read().await.peers.contains_key(&addr);
+        self.rep.eval();
+        let shape = if self.conns[ended].had_sibling { "two-connections" } else { "single-connection" };
+        if self.statics.contains_key(&addr) {
+            self.rep.count("cleanup:static-checked");
+            if !present {
+                let w = self.witness(vec![("address", Json::s(addr.to_string()))]);
+                self.rep.violation(
+                    &format!("C16/dynamic-cleanup/configured-neighbour-removed/{}", shape),
+                    "a statically configured neighbour disappeared from Global.peers when a connection ended",
+                    w,
+                );
+            }
+        } else if !live {
+            self.rep.count(&format!("cleanup:dynamic-checked:{}", shape));
+            self.rep.nontrivial(self.case_hash() ^ 0xc1ea);
+            if present {
+                let w = self.witness(vec![("address", Json::s(addr.to_string())), ("ended_connection", Json::Int(self.conns[ended].id as i128))]);
+                self.rep.violation(
+                    &format!("C16/dynamic-cleanup/entry-remains/{}", shape),
+                    "a dynamic neighbour's entry is still in Global.peers after its last connection's task finished",
+                    w,
+                );
+            }
+        } else {
+            self.rep.count(if present { "unjudged:cleanup:entry-present-while-other-connection-alive" } else { "unjudged:cleanup:entry-gone-while-other-connection-alive" });
+        }
+    }
+
+    /// the connections of `addr` are expected to end now (disable / delete): wait for their tasks
+    async fn await_all(&mut self, addr: IpAddr) {
+        for i in self.live(&addr) {
+            if self.aborted {
+                return;
+            }
+            if self.await_done(i).await {
+                self.check_cleanup(addr, i).await;
+            }
+        }
+    }
+
+    async fn op_disconnect(&mut self, i: usize) {
+        let addr = self.conns[i].addr;
+        self.log(format!("disconnect #{}", i));
+        self.rep.count("op:disconnect");
+        self.conns[i].client = None; // close (RST: linger 0)
+        if self.await_done(i).await {
+            self.check_cleanup(addr, i).await;
+        }
+    }
+
+    async fn op_disable(&mut self, addr: IpAddr) {
+        self.log(format!("disable {}", addr));
+        self.rep.count("op:disable");
+        let r = self.svc.disable_peer(tonic::Request::new(api::DisablePeerRequest { address: addr.to_string(), communication: String::new() })).await;
+        if r.is_ok() {
+            if let Some(n) = self.statics.get_mut(&addr) {
+                n.admin_down = true;
+            }
+            self.await_all(addr).await;
+        }
+    }
+
+    async fn op_enable(&mut self, addr: IpAddr) {
+        self.log(format!("enable {}", addr));
+        self.rep.count("op:enable");
+        let r = self.svc.enable_peer(tonic::Request::new(api::EnablePeerRequest { address: addr.to_string() })).await;
+        if r.is_ok() {
+            if let Some(n) = self.statics.get_mut(&addr) {
+                n.admin_down = false;
+            }
+        }
+    }
+
+    async fn op_delete(&mut self, addr: IpAddr, wait: bool) {
+        self.log(format!("delete {}{}", addr, if wait { "" } else { " (next steps before its sessions have ended)" }));
+        self.rep.count("op:delete");
+        let r = self.svc.delete_peer(tonic::Request::new(api::DeletePeerRequest { address: addr.to_string(), interface: String::new() })).await;
+        if r.is_ok() {
+            if let Some(n) = self.statics.remove(&addr) {
+                self.removed.push(n);
+            }
+            if wait {
+                self.await_all(addr).await;
+            }
+        }
+    }
+
+    async fn op_add(&mut self, n: NeighGen) {
+        self.log(format!("add neighbour {} {:?}", n.addr, n));
+        self.rep.count("op:add");
+        let r = self.svc.add_peer(tonic::Request::new(api::AddPeerRequest { peer: Some(neigh_api(&n)) })).await;
+        match r {
+            Ok(_) => {
+                self.src.insert(n.addr, "grpc");
+                self.statics.insert(n.addr, n);
+            }
+            Err(e) => {
+                self.rep.count("op:add-refused");
+                self.log(format!("  add refused: {}", e.message()));
+                // an entry (e.g. an instantiated dynamic neighbour) may legitimately be in the way
+            }
+        }
+    }
+
+    async fn op_prefix(&mut self, gi: usize, p: PrefixGen, add: bool) {
+        let name = self.groups[gi].name.clone();
+        self.log(format!("{} dynamic prefix {} group {}", if add { "add" } else { "delete" }, p.text, name));
+        self.rep.count(if add { "op:add-prefix" } else { "op:delete-prefix" });
+        if add {
+            let r = self
+                .svc
+                .add_dynamic_neighbor(tonic::Request::new(api::AddDynamicNeighborRequest {
+                    dynamic_neighbor: Some(api::DynamicNeighbor { prefix: p.text.clone(), peer_group: name }),
+                }))
+                .await;
+            if r.is_ok() {
+                self.groups[gi].prefixes.push(p);
+            }
+        } else {
+            let r = self.svc.delete_dynamic_neighbor(tonic::Request::new(api::DeleteDynamicNeighborRequest { prefix: p.text.clone(), peer_group: name })).await;
+            if r.is_ok() {
+                self.groups[gi].prefixes.retain(|x| x.text != p.text);
+            }
+        }
+    }
+
+    /// delete + re-add while a connection of the old neighbour is still winding down
+    async fn op_replace_race(&mut self, addr: IpAddr, role: Role) {
+        let Some(n) = self.statics.get(&addr).cloned() else { return };
+        self.rep.count("op:replace-while-connected");
+        let pair = match self.make_pair(addr, role).await {
+            Ok(p) => p,
+            Err(e) => {
+                self.abort(&format!("harness: cannot build a loopback connection: {}", e));
+                return;
+            }
+        };
+        let old = self.live(&addr);
+        self.op_delete(addr, false).await;
+        self.op_add(n).await;
+        self.op_connect(addr, role, Drive::Silent, Some(pair), false).await;
+        for i in old {
+            if self.aborted {
+                return;
+            }
+            if self.await_done(i).await {
+                self.check_cleanup(addr, i).await;
+            }
+        }
+        // now everything is quiescent again: a further connection in that direction is judged
+        if !self.aborted {
+            self.op_connect(addr, role, Drive::Silent, None, true).await;
+        }
+    }
+}
+
+// ------------------------------------------------------------------ one configuration + one history
+
+async fn run_scenario(cfg: &CfgGen, rng: &mut Rng, rep: &mut Report, n_ops: usize, trace: bool) {
+    let mut w = match build_world(cfg, rep, trace).await {
+        Ok(w) => w,
+        Err(e) => {
+            rep.inconclusive(&format!("harness: generated configuration not loadable: {}", e));
+            return;
+        }
+    };
+    w.rep.count("configurations");
+    w.rep.count(&format!("loader:{}", w.loader_name()));
+    if trace {
+        eprintln!("== configuration ({}):\n{}", w.loader_name(), w.cfg_text);
+    }
+    // every address once, first
+    let mut first: Vec<IpAddr> = w.universe.clone();
+    rng.shuffle(&mut first);
+    let mut step = 0usize;
+    while step < n_ops && !w.aborted {
+        step += 1;
+        // connections the daemon's own active-connect tasks may have produced are not part of the history
+        while let Ok(s) = w.active_rx.try_recv() {
+            drop(s);
+            w.rep.count("harness:own-active-connect-succeeded");
+        }
+        let k = rng.below(100);
+        let live: Vec<usize> = (0..w.conns.len()).filter(|i| !w.conns[*i].done).collect();
+        let statics: Vec<IpAddr> = w.statics.keys().copied().collect();
+        if k < 52 || first.len() > n_ops.saturating_sub(step) {
+            let addr = match first.pop() {
+                Some(a) => a,
+                None => {
+                    // lean towards addresses that already have something going on
+                    if !live.is_empty() && rng.chance(1, 3) { w.conns[*rng.pick(&live)].addr } else { *rng.pick(&w.universe) }
+                }
+            };
+            let role = if rng.chance(7, 10) { Role::Passive } else { Role::Active };
+            let drive = match rng.below(10) {
+                0..=5 => Drive::Silent,
+                6..=8 => Drive::Establish,
+                _ => Drive::BadAs,
+            };
+            w.op_connect(addr, role, drive, None, true).await;
+        } else if k < 68 {
+            if !live.is_empty() {
+                let i = *rng.pick(&live);
+                w.op_disconnect(i).await;
+            }
+        } else if k < 74 {
+            let addr = if !statics.is_empty() && rng.chance(4, 5) { *rng.pick(&statics) } else { *rng.pick(&w.universe) };
+            w.op_disable(addr).await;
+        } else if k < 80 {
+            let addr = if !statics.is_empty() && rng.chance(4, 5) { *rng.pick(&statics) } else { *rng.pick(&w.universe) };
+            w.op_enable(addr).await;
+        } else if k < 85 {
+            let addr = if !statics.is_empty() && rng.chance(4, 5) { *rng.pick(&statics) } else { *rng.pick(&w.universe) };
+            w.op_delete(addr, true).await;
+        } else if k < 91 {
+            // re-add a deleted neighbour (possibly changed), or a new one on a free address
+            let n = if !w.removed.is_empty() && rng.chance(3, 4) {
+                let i = rng.usize(w.removed.len());
+                let mut n = w.removed.remove(i);
+                if rng.bool() {
+                    n.c.hold = Some(*rng.pick(&[9u32, 45, 300]));
+                    n.admin_down = rng.chance(1, 4);
+                }
+                Some(n)
+            } else {
+                let free: Vec<IpAddr> = w.universe.iter().copied().filter(|a| !w.statics.contains_key(a)).collect();
+                if free.is_empty() {
+                    None
+                } else {
+                    let a = *rng.pick(&free);
+                    let group = if !w.groups.is_empty() && rng.bool() { Some(rng.pick(&w.groups).name.clone()) } else { None };
+                    let mut c = gen_common(rng, false, a.is_ipv6(), w.confed.is_some(), group.is_some());
+                    if group.is_none() && c.peer_as == 0 {
+                        c.peer_as = 65002;
+                    }
+                    Some(NeighGen { addr: a, c, group, admin_down: rng.chance(1, 5), export: None })
+                }
+            };
+            if let Some(n) = n {
+                if !w.statics.contains_key(&n.addr) {
+                    w.op_add(n).await;
+                }
+            }
+        } else if k < 95 {
+            // replace a configured neighbour while one of its connections is alive
+            let cand: Vec<usize> = live.iter().copied().filter(|i| w.statics.get(&w.conns[*i].addr).is_some_and(|n| !n.admin_down) && !w.conns[*i].dynamic).collect();
+            if !cand.is_empty() {
+                let i = *rng.pick(&cand);
+                let (a, r) = (w.conns[i].addr, w.conns[i].role);
+                w.op_replace_race(a, r).await;
+            }
+        } else if !w.groups.is_empty() {
+            let gi = rng.usize(w.groups.len());
+            if !w.groups[gi].prefixes.is_empty() && rng.bool() {
+                let p = rng.pick(&w.groups[gi].prefixes).clone();
+                w.op_prefix(gi, p, false).await;
+            } else {
+                let base = *rng.pick(&w.universe);
+                let (v6, bits) = addr_bits(&base);
+                let len = if v6 { *rng.pick(&[0u8, 1, 64, 127, 128]) } else { rng.range(0, 32) as u8 };
+                let p = prefix_of(v6, bits, len);
+                if !w.groups[gi].prefixes.iter().any(|x| x.text == p.text) {
+                    w.op_prefix(gi, p, true).await;
+                }
+            }
+        }
+    }
+    // ---- wind down: every connection closes, then the peer table must be the configured one
+    if !w.aborted {
+        w.log("close everything".into());
+        let live: Vec<usize> = (0..w.conns.len()).filter(|i| !w.conns[*i].done).collect();
+        for i in live {
+            if w.aborted {
+                break;
+            }
+            if !w.conns[i].done {
+                w.op_disconnect(i).await;
+            }
+        }
+    }
+    if !w.aborted {
+        let keys: BTreeSet<IpAddr> = w.global.read().await.peers.keys().copied().collect();
+        let want: BTreeSet<IpAddr> = w.statics.keys().copied().collect();
+        w.rep.eval();
+        w.rep.count("final-peer-table-checked");
+        if keys != want {
+            let extra: Vec<String> = keys.difference(&want).map(|a| a.to_string()).collect();
+            let missing: Vec<String> = want.difference(&keys).map(|a| a.to_string()).collect();
+            let wit = w.witness(vec![("left_over", Json::strs(extra.clone())), ("missing", Json::strs(missing.clone()))]);
+            if !extra.is_empty() {
+                w.rep.violation("C16/dynamic-cleanup/entries-left-at-the-end", "after every connection ended Global.peers still holds entries that are not configured neighbours", wit);
+            } else {
+                w.rep.violation("C16/dynamic-cleanup/configured-neighbour-missing-at-the-end", "after every connection ended a configured neighbour is missing from Global.peers", wit);
+            }
+        }
+    }
+}
+
+// ------------------------------------------------------------------ GR / LLGR / send-max mirror (daemon side of the capability half)
+
+fn mk_context() -> Arc<std::sync::Mutex<PeerContext>> {
+    let fsm = crate::fsm::PeerFsm::new(u32::from(router_id()), GLOBAL_AS, vec![], 90, 0, FnvHashMap::default());
+    Arc::new(std::sync::Mutex::new(PeerContext {
+        conn_arbiter: Arc::new(std::sync::Mutex::new(ConnArbiter::new(fsm))),
+        active_connect_cancel_tx: None,
+        active_connect_join_handle: None,
+        gr_state: crate::gr::GrState::new(),
+        gr_restart_timer: None,
+        llgr_family_timers: FnvHashMap::default(),
+        rtc_state: crate::rtc::RtcState::new(),
+        rtc_eor_timer: None,
+    }))
+}
+
+fn wire_caps(caps: &[packet::Capability]) -> Option<Vec<packet::Capability>> {
+    let msg = bgp::Message::Open(bgp::Open { as_number: 65000, holdtime: HoldTime::new(90).unwrap(), router_id: 0x0101_0101, capability: caps.to_vec() });
+    let mut buf = BytesMut::new();
+    bgp::PeerCodec::new().encode_to(&msg, &mut buf).ok()?;
+    match bgp::PeerCodec::new().try_parse(&mut buf) {
+        Ok(Some(bgp::ParsedMessage::Open(o))) => Some(o.capability),
+        _ => None,
+    }
+}
+
+fn gen_gr_caps(rng: &mut Rng, uni: &[Family]) -> Vec<packet::Capability> {
+    let mut v = Vec::new();
+    for f in uni {
+        if rng.chance(3, 4) {
+            v.push(packet::Capability::MultiProtocol(*f));
+        }
+    }
+    let n_gr = *rng.pick(&[0usize, 1, 1, 1, 1, 2]);
+    for _ in 0..n_gr {
+        let mut fams: Vec<(Family, u8)> = Vec::new();
+        for f in uni {
+            if rng.chance(3, 5) {
+                fams.push((*f, *rng.pick(&[0u8, 0x80])));
+                if rng.chance(1, 12) {
+                    fams.push((*f, 0));
+                }
+            }
+        }
+        v.push(packet::Capability::GracefulRestart { flags: rng.below(16) as u8, restart_time: *rng.pick(&[0u16, 1, 120, 4095]), families: fams });
+    }
+    let n_l = *rng.pick(&[0usize, 1, 1, 1, 1, 2]);
+    for _ in 0..n_l {
+        let mut fams: Vec<(Family, u8, u32)> = Vec::new();
+        for f in uni {
+            if rng.chance(3, 5) {
+                fams.push((*f, *rng.pick(&[0u8, 0x80]), *rng.pick(&[0u32, 0, 1, 600, 0xff_ffff])));
+                if rng.chance(1, 8) {
+                    fams.push((*f, 0, *rng.pick(&[0u32, 77])));
+                }
+            }
+        }
+        v.push(packet::Capability::LongLivedGracefulRestart(fams));
+    }
+    let n_ap = *rng.pick(&[0usize, 1, 1, 2]);
+    for _ in 0..n_ap {
+        let mut e: Vec<(Family, u8)> = Vec::new();
+        for f in uni {
+            if rng.chance(3, 5) {
+                e.push((*f, *rng.pick(&[1u8, 2, 3, 3])));
+                if rng.chance(1, 8) {
+                    e.push((*f, *rng.pick(&[1u8, 2, 3])));
+                }
+            }
+        }
+        v.push(packet::Capability::AddPath(e));
+    }
+    rng.shuffle(&mut v);
+    v
+}
+
+/// per family: advertised by every capability instance / by some instance (duplicates are ambiguous)
+fn gr_adv(c: &[packet::Capability], f: Family) -> (bool, bool) {
+    let lists: Vec<bool> = c
+        .iter()
+        .filter_map(|x| if let packet::Capability::GracefulRestart { families, .. } = x { Some(families.iter().any(|(ff, _)| *ff == f)) } else { None })
+        .collect();
+    (!lists.is_empty() && lists.iter().all(|x| *x), lists.iter().any(|x| *x))
+}
+
+/// (advertised with a non-zero time in every instance and entry, advertised at all)
+fn llgr_adv(c: &[packet::Capability], f: Family) -> (bool, bool) {
+    let mut inst = 0;
+    let mut all = true;
+    let mut any = false;
+    for x in c {
+        if let packet::Capability::LongLivedGracefulRestart(v) = x {
+            inst += 1;
+            let es: Vec<u32> = v.iter().filter(|(ff, _, _)| *ff == f).map(|(_, _, t)| *t).collect();
+            if es.is_empty() || es.iter().any(|t| *t == 0) {
+                all = false;
+            }
+            if !es.is_empty() {
+                any = true;
+            }
+        }
+    }
+    (inst > 0 && all, any)
+}
+
+fn caps_json(c: &[packet::Capability]) -> Json {
+    Json::strs(c.iter().map(|x| format!("{:?}", x)))
+}
+
+fn gr_mirror_part(rep: &mut Report, rng: &mut Rng, n: u64) {
+    let tables: TableHandle = Arc::new(TableManager::new(1));
+    let table = fam_table();
+    let any_addr = IpAddr::V4(Ipv4Addr::new(192, 0, 2, 1));
+    for _ in 0..n {
+        let k = rng.range(1, 4) as usize;
+        let mut idx: Vec<usize> = (0..table.len()).collect();
+        rng.shuffle(&mut idx);
+        let uni: Vec<Family> = idx[..k].iter().map(|i| table[*i].0).collect();
+        let l = gen_gr_caps(rng, &uni);
+        let r = gen_gr_caps(rng, &uni);
+        let (Some(lw), Some(rw)) = (wire_caps(&l), wire_caps(&r)) else {
+            rep.count("mirror:wire-skipped");
+            continue;
+        };
+        let mut sl = PeerSession::new_for_test(any_addr, mk_context(), tables.clone());
+        sl.local_cap = l.clone();
+        let mut sr = PeerSession::new_for_test(any_addr, mk_context(), tables.clone());
+        sr.local_cap = r.clone();
+        // each end: own list as configured, the other's as decoded from its OPEN
+        let res = guard(|| (sl.negotiate_gr(&rw), sr.negotiate_gr(&lw), sl.negotiate_llgr(&rw), sr.negotiate_llgr(&lw)));
+        rep.eval();
+        rep.count("mirror:gr-llgr-pairs");
+        let (gl, gr, ll, lr) = match res {
+            Ok(x) => x,
+            Err(p) => {
+                rep.violation(&format!("C16/panic/{}:{}", p.location, panic_class(&p.message)), &p.message, Json::obj(vec![("L", caps_json(&l)), ("R", caps_json(&r))]));
+                continue;
+            }
+        };
+        let set = |v: Option<Vec<Family>>| -> BTreeSet<u32> { v.unwrap_or_default().into_iter().map(fid).collect() };
+        let gls = set(gl.as_ref().map(|g| g.families.clone()));
+        let grs = set(gr.as_ref().map(|g| g.families.clone()));
+        let lls = set(ll.as_ref().map(|g| g.families.iter().map(|(f, _)| *f).collect()));
+        let lrs = set(lr.as_ref().map(|g| g.families.iter().map(|(f, _)| *f).collect()));
+        rep.nontrivial(fnv64(format!("{:?}|{:?}", l, r).as_bytes()));
+        let wit = |what: &str| {
+            Json::obj(vec![
+                ("what", Json::s(what)),
+                ("L", caps_json(&l)),
+                ("R", caps_json(&r)),
+                ("gr_at_L", Json::s(format!("{:x?}", gls))),
+                ("gr_at_R", Json::s(format!("{:x?}", grs))),
+                ("llgr_at_L", Json::s(format!("{:x?}", lls))),
+                ("llgr_at_R", Json::s(format!("{:x?}", lrs))),
+            ])
+        };
+        let dup_gr = |c: &[packet::Capability]| c.iter().filter(|x| matches!(x, packet::Capability::GracefulRestart { .. })).count() > 1;
+        let dup_llgr = |c: &[packet::Capability]| {
+            c.iter().filter(|x| matches!(x, packet::Capability::LongLivedGracefulRestart(_))).count() > 1
+                || c.iter().any(|x| {
+                    if let packet::Capability::LongLivedGracefulRestart(v) = x {
+                        let mut s = BTreeSet::new();
+                        v.iter().any(|(f, _, _)| !s.insert(fid(*f)))
+                    } else {
+                        false
+                    }
+                })
+        };
+        if gls != grs {
+            rep.violation(
+                if dup_gr(&l) || dup_gr(&r) { "C16/mirror/gr-family-set/duplicate-capability" } else { "C16/mirror/gr-family-set" },
+                "graceful restart is in force for different families at the two ends",
+                wit("gr sets differ"),
+            );
+        }
+        if lls != lrs {
+            rep.violation(
+                if dup_llgr(&l) || dup_llgr(&r) { "C16/mirror/llgr-family-set/duplicate-entries" } else { "C16/mirror/llgr-family-set" },
+                "LLGR is in force for different families at the two ends",
+                wit("llgr sets differ"),
+            );
+        }
+        for f in &uni {
+            let id = fid(*f);
+            let (ld, lp) = gr_adv(&l, *f);
+            let (rd, rp) = gr_adv(&r, *f);
+            if ld && rd {
+                rep.count("mirror:gr-inforce");
+                if !gls.contains(&id) || !grs.contains(&id) {
+                    rep.violation("C16/mirror/gr/not-in-force", "a family both ends advertised in their GR capability is not in force", wit(&format!("family {:#x}", id)));
+                }
+            } else if !(lp && rp) {
+                if lp || rp {
+                    rep.count("mirror:gr-one-sided");
+                }
+                if gls.contains(&id) || grs.contains(&id) {
+                    rep.violation("C16/mirror/gr/one-sided", "graceful restart in force for a family only one end advertised", wit(&format!("family {:#x}", id)));
+                }
+            } else {
+                rep.count("unjudged:mirror:gr-duplicate-capabilities");
+            }
+            let (ld, lp) = llgr_adv(&l, *f);
+            let (rd, rp) = llgr_adv(&r, *f);
+            if ld && rd {
+                rep.count("mirror:llgr-inforce");
+                if !lls.contains(&id) || !lrs.contains(&id) {
+                    rep.violation("C16/mirror/llgr/not-in-force", "a family both ends advertised (non-zero stale time) in their LLGR capability is not in force", wit(&format!("family {:#x}", id)));
+                }
+            } else if !(lp && rp) {
+                if lp || rp {
+                    rep.count("mirror:llgr-one-sided");
+                }
+                if lls.contains(&id) || lrs.contains(&id) {
+                    rep.violation("C16/mirror/llgr/one-sided", "LLGR in force for a family only one end advertised", wit(&format!("family {:#x}", id)));
+                }
+            } else {
+                rep.count("unjudged:mirror:llgr-zero-time-or-duplicates");
+            }
+        }
+        // ---- the FSM's send-max agrees with the negotiated codec
+        let mut send_max: FnvHashMap<Family, usize> = FnvHashMap::default();
+        for f in &uni {
+            if rng.chance(1, 2) {
+                send_max.insert(*f, *rng.pick(&[2usize, 4, 8]));
+            }
+        }
+        let out = guard(|| {
+            let mut fsm = crate::fsm::PeerFsm::new(u32::from(router_id()), GLOBAL_AS, l.clone(), 90, 0, send_max.clone());
+            let mut outs = fsm.process(Role::Passive, crate::fsm::Input::Connected(false));
+            outs.extend(fsm.process(
+                Role::Passive,
+                crate::fsm::Input::MessageReceived(bgp::Message::Open(bgp::Open {
+                    as_number: 65002,
+                    holdtime: HoldTime::new(90).unwrap(),
+                    router_id: 0x0202_0202,
+                    capability: rw.clone(),
+                })),
+            ));
+            outs.extend(fsm.process(Role::Passive, crate::fsm::Input::MessageReceived(bgp::Message::Keepalive)));
+            outs
+        });
+        let Ok(outs) = out else { continue };
+        let mut codec = None;
+        let mut eff = None;
+        for o in outs {
+            match o {
+                crate::fsm::PeerFsmOutput::Connection(_, crate::fsm::Output::SessionNegotiated(c)) => codec = Some(c),
+                crate::fsm::PeerFsmOutput::Connection(_, crate::fsm::Output::SessionEstablished { effective_max, .. }) => eff = Some(effective_max),
+                _ => {}
+            }
+        }
+        let (Some(codec), Some(eff)) = (codec, eff) else {
+            rep.count("mirror:fsm-not-established");
+            continue;
+        };
+        rep.eval();
+        rep.count("mirror:fsm-send-max-cases");
+        for f in codec.families_iter().collect::<Vec<_>>() {
+            let tx = codec.family_state(f).is_some_and(|s| s.addpath_tx);
+            let want = if tx { send_max.get(&f).copied() } else { None };
+            let got = eff.get(&f).copied();
+            if tx && want.is_some() {
+                rep.count("mirror:send-max-in-force");
+            }
+            if got != want {
+                rep.violation(
+                    if got.is_some() && !tx { "C16/mirror/send-max-without-negotiated-tx" } else { "C16/mirror/send-max-not-applied" },
+                    "the FSM's effective send-max disagrees with the add-path send direction PeerCodec::negotiate put in force",
+                    Json::obj(vec![
+                        ("family", Json::s(format!("{:#x}", fid(f)))),
+                        ("L", caps_json(&l)),
+                        ("R_as_decoded", caps_json(&rw)),
+                        ("configured_send_max", Json::s(format!("{:?}", send_max))),
+                        ("negotiated_tx", Json::Bool(tx)),
+                        ("effective_max", Json::s(format!("{:?}", got))),
+                    ]),
+                );
+            }
+        }
+    }
+}
+
+#[test]
+fn run() {
+    let params = Params::from_args_env();
+    let mut rep = Report::new("C16", &params);
+    install_panic_hook();
+    let mut rng = Rng::new(params.seed ^ 0xC16);
+    let part = params.get("part").unwrap_or("all").to_string();
+    let rt = tokio::runtime::Builder::new_current_thread().enable_all().build().expect("runtime");
+    if part == "all" || part == "grmirror" {
+        let n = params.n(20_000, 400_000);
+        let mut r2 = rng.fork();
+        // PeerSession::new_for_test creates (never polled) tokio timers
+        let _enter = rt.enter();
+        gr_mirror_part(&mut rep, &mut r2, n);
+    }
+    if part == "all" || part == "accept" {
+        let n = params.n(300, 20_000);
+        let only = params.get("only").and_then(|s| s.parse::<u64>().ok());
+        let trace = params.flag("trace");
+        for i in 0..n {
+            if !rep.in_budget() {
+                break;
+            }
+            let mut r = Rng::new((params.seed ^ 0xC16).wrapping_mul(1_000_003).wrapping_add(i));
+            let cfg = gen_cfg(&mut r);
+            let n_ops = r.range(10, 30) as usize;
+            if let Some(o) = only {
+                if o != i {
+                    continue;
+                }
+            }
+            rep.extra.retain(|(k, _)| k != "last_configuration_index");
+            let res = std::panic::catch_unwind(std::panic::AssertUnwindSafe(|| {
+                rt.block_on(run_scenario(&cfg, &mut r, &mut rep, n_ops, trace));
+            }));
+            if res.is_err() {
+                let (loc, msg) = take_panic();
+                if loc.contains("verif/harness") || loc.contains("c16.rs") {
+                    rep.inconclusive(&format!("harness panic at {}: {}", loc, msg));
+                } else {
+                    rep.violation(
+                        &format!("C16/panic/{}:{}", loc, panic_class(&msg)),
+                        &format!("panic while loading a configuration / accepting a connection: {}", msg),
+                        Json::obj(vec![("configuration", Json::s(cfg_toml(&cfg))), ("loader", Json::s(format!("{:?}", cfg.loader))), ("configuration_index", Json::Int(i as i128))]),
+                    );
+                }
+            }
+        }
+        // let cancelled tasks unwind
+        rt.block_on(async { tokio::task::yield_now().await });
+    }
+    let _ = rep.finish();
 }
